@@ -583,6 +583,10 @@ void cljp_naive_splitting(const I n,
                                 I splitting[], const int splitting_size,
                           const I colorflag)
 {
+  if(n == 0){
+    return; // nothing to split (and no first element to take addresses of)
+  }
+
   // initialize sizes
   int ncolors;
   I unassigned = n;
